@@ -14,6 +14,7 @@ struct Shared {
     uint64_t runs;
     int stop;
     uint64_t cur_index[MAX_WORKERS];     // index a worker is executing (~0 = idle)
+    uint64_t heartbeat[MAX_WORKERS];     // bumped on every API call / fault point: the watchdog looks at progress, not at run length
     // aggregated results
     uint64_t done, evals, nontrivial, distinct_nontrivial, refusals, violations, events, ticks, bytes_io;
     uint64_t max_run_ticks;
